@@ -129,7 +129,9 @@ def run(ctx):
     gate_funcs = set(GATE_FUNCS)
     if ctx.tier == "thorough":
         gate_funcs |= {("parser.py", n) for n in dir(I.parser) if n.startswith("p_") or n.startswith("t_")}
-    nasty = ["a^.", "a '", "(a", "\"a\"~1.5", "", "a AND", "'", "a:", "x AND (y OR z"]
+    nasty = ["a^.", "a '", "(a", "\"a\"~1.5", "", "a AND", "'", "a:", "x AND (y OR z",
+             # nothing but blanks, several kinds (whatever the outcome is, it is each call's own: seeded C14-H)
+             " ", "\t\n", "  \u3000 ", " \xa0  \u3000 ", "\n\n\n"]
     # constructs whose reading depends on what stands to their left (a group after a colon is a field group, a `-`
     # inside a range is a sign ...): an action that looks at the parser's state must look at ITS OWN call's state
     # (seeded C14-G: `p.parser.symstack`, re-bound by whichever call started last)
@@ -146,6 +148,10 @@ def run(ctx):
                 qs.append(rng.choice(nasty) if k < 0.15 else gen.malformed(rng, qg) if k < 0.3 else
                           rng.choice(contextual) if k < 0.42 else qg.query())
             per_thread.append(qs)
+        if i < 2:
+            # (directed, every run: threads that parse nothing but blanks, of several kinds, at the same time)
+            blanks = [" ", "\t\n", "  \u3000 ", " \xa0  \u3000 ", "", "\n\n\n"]
+            per_thread = [[blanks[(t + k + i) % len(blanks)] for k in range(3)] for t in range(n)]
         steps = sum(len(parsing.lex_tokens(q) or []) + 2 for qs in per_thread for q in qs) * 2 + 4
         style = rng.choice(["random", "round-robin", "bursts"])
         if style == "random":
